@@ -50,6 +50,91 @@ fn raw_request(t: &mut Tape, cur_flat: bool, first: bool) -> LayerSpec {
     }
 }
 
+/// A feedback-block request that fits `cur`: its layer chain returns to the shape it starts from.
+/// Flat: dense n -> n or n -> m -> n. Spatial: a general same-size convolution / deconvolution (odd kernel up
+/// to 5, dilation up to 2, padding d(k-1)/2), or a shrinking layer (any fitting convolution, or a max-pool)
+/// followed by the deconvolution that restores the size ((m-1)s + k - 2p = n solved for k).
+fn fb_request(t: &mut Tape, cur: &[usize]) -> Option<LayerSpec> {
+    let acts = [ActK::Linear, ActK::Tanh, ActK::ReLU, ActK::Sigmoid];
+    let loops = t.usize(1, 3);
+    let (inskips, outskips) = (t.chance(1, 3), t.chance(1, 3));
+    let acc = ACCS[t.pick(5)];
+    let layers = if cur.len() == 1 {
+        let n = cur[0];
+        if t.bool() {
+            vec![LayerSpec::Dense { out: n, act: acts[t.pick(4)], bias: t.bool(), dropout: None }]
+        } else {
+            vec![LayerSpec::Dense { out: t.usize(1, 12), act: acts[t.pick(4)], bias: t.bool(), dropout: None }, LayerSpec::Dense { out: n, act: acts[t.pick(4)], bias: t.bool(), dropout: None }]
+        }
+    } else {
+        let (c, h, w) = (cur[0], cur[1], cur[2]);
+        let restore = |t: &mut Tape, from: &[usize]| -> Option<LayerSpec> {
+            // deconvolution from (.., mh, mw) back to (c, h, w)
+            let (mh, mw) = (from[1], from[2]);
+            let (sh, sw) = (t.usize(1, 2), t.usize(1, 2));
+            let (ph, pw) = (t.usize(0, 1), t.usize(0, 1));
+            let kh = h as i64 - (mh as i64 - 1) * sh as i64 + 2 * ph as i64;
+            let kw = w as i64 - (mw as i64 - 1) * sw as i64 + 2 * pw as i64;
+            if kh < 1 || kw < 1 || kh > 9 || kw > 9 {
+                return None;
+            }
+            Some(LayerSpec::Deconv { cfg: ConvCfg { filters: c, kernel: (kh as usize, kw as usize), stride: (sh, sw), padding: (ph, pw), dilation: (1, 1) }, act: ActK::Linear, dropout: None })
+        };
+        match t.pick(3) {
+            0 => {
+                let (kh, kw) = ([1usize, 3, 5][t.pick(3)], [1usize, 3, 5][t.pick(3)]);
+                if t.bool() {
+                    let (dh, dw) = (t.usize(1, 2), t.usize(1, 2));
+                    vec![LayerSpec::Conv { cfg: ConvCfg { filters: c, kernel: (kh, kw), stride: (1, 1), padding: (dh * (kh - 1) / 2, dw * (kw - 1) / 2), dilation: (dh, dw) }, act: acts[t.pick(4)], dropout: None }]
+                } else {
+                    vec![LayerSpec::Deconv { cfg: ConvCfg { filters: c, kernel: (kh, kw), stride: (1, 1), padding: ((kh - 1) / 2, (kw - 1) / 2), dilation: (1, 1) }, act: acts[t.pick(4)], dropout: None }]
+                }
+            }
+            1 => {
+                let first = raw_request(t, false, true);
+                let first = match first {
+                    LayerSpec::Conv { .. } => first,
+                    _ => LayerSpec::Conv { cfg: ConvCfg { filters: t.usize(1, 3), kernel: (t.usize(1, 3), t.usize(1, 3)), stride: (t.usize(1, 3), t.usize(1, 3)), padding: (t.usize(0, 2), t.usize(0, 2)), dilation: (t.usize(1, 2), t.usize(1, 2)) }, act: acts[t.pick(4)], dropout: None },
+                };
+                let mid = model_out(cur, &first)?;
+                vec![first, restore(t, &mid)?]
+            }
+            _ => {
+                let first = LayerSpec::Pool { kernel: (t.usize(1, h.min(3)), t.usize(1, w.min(3))), stride: (t.usize(1, 2), t.usize(1, 2)) };
+                let mid = model_out(cur, &first)?;
+                vec![first, restore(t, &mid)?]
+            }
+        }
+    };
+    let fb = LayerSpec::Feedback { layers, loops, inskips, outskips, acc };
+    // the chain must return to where it started
+    if model_out(cur, &fb).as_deref() != Some(cur) {
+        return None;
+    }
+    Some(fb)
+}
+
+/// The shape model's view of one request: None = not part of the accepted sequence (refused by design,
+/// outside the property, or over the size bound), otherwise the shape after the layer.
+fn model_step(cur: &[usize], req: &LayerSpec, any_accepted: bool) -> Option<Vec<usize>> {
+    let flat_cur = cur.len() == 1;
+    let spatial_req = req.is_spatial();
+    if flat_cur && spatial_req && (!any_accepted || isqrt_exact(cur[0]).is_none()) {
+        return None;
+    }
+    if !flat_cur && !spatial_req && !any_accepted {
+        return None;
+    }
+    if matches!(req, LayerSpec::Feedback { .. }) && flat_cur == spatial_req {
+        return None; // blocks are only requested in the representation they were built for
+    }
+    let m = model_out(cur, req)?;
+    if m.iter().product::<usize>() > 4000 {
+        return None;
+    }
+    Some(m)
+}
+
 fn decode(tape: &[u32], tier: Tier) -> Case {
     let mut t = Tape::new(tape);
     let kind = if t.chance(1, 5) { 1 } else if t.chance(1, 250) { 2 } else { 0 };
@@ -66,8 +151,16 @@ fn decode(tape: &[u32], tier: Tier) -> Case {
         let n = t.usize(1, tier.pick(5, 7));
         let mut requests = Vec::new();
         let flat = input.len() == 1;
+        let mut cur = input.clone();
+        let mut any = false;
         for i in 0..n {
-            requests.push(raw_request(&mut t, flat, i == 0));
+            // one request in five is a feedback block built to fit the shape the model is at
+            let req = if t.chance(1, 5) { fb_request(&mut t, &cur).unwrap_or_else(|| raw_request(&mut t, flat, i == 0)) } else { raw_request(&mut t, flat, i == 0) };
+            if let Some(next) = model_step(&cur, &req, any) {
+                cur = next;
+                any = true;
+            }
+            requests.push(req);
         }
         Case { kind, input, requests, seed: t.raw(), ident: vec![], tail_dense: false }
     } else {
@@ -96,6 +189,7 @@ fn check_requests(case: &Case, ev: &mut CaseEv) -> CheckResult {
     let mut produced: Vec<Vec<usize>> = Vec::new();
     let mut transition = false;
     let mut odd = false;
+    let mut block_skips = false;
     for req in &case.requests {
         let flat_cur = cur.len() == 1;
         let spatial_req = req.is_spatial();
@@ -118,6 +212,9 @@ fn check_requests(case: &Case, ev: &mut CaseEv) -> CheckResult {
             }
             continue;
         }
+        if matches!(req, LayerSpec::Feedback { .. }) && flat_cur == spatial_req {
+            continue; // block built for the other representation (not submitted)
+        }
         let model = model_out(&cur, req);
         let Some(model) = model else {
             ev.class("request outside the property (does not fit) - not submitted");
@@ -138,6 +235,24 @@ fn check_requests(case: &Case, ev: &mut CaseEv) -> CheckResult {
         if !flat_cur && !spatial_req {
             transition = true;
             ev.class("spatial -> dense (flatten)");
+        }
+        if let LayerSpec::Feedback { layers, loops, inskips, outskips, .. } = req {
+            ev.class(if spatial_req { "feedback block request (spatial)" } else { "feedback block request (flat)" });
+            if layers.len() == 2 && spatial_req {
+                ev.class("feedback block: shrinking layer + restoring deconvolution");
+                odd = true;
+            }
+            if *outskips && *loops >= 2 {
+                ev.class("feedback block with output skips, loops >= 2");
+            }
+            if *inskips || *outskips {
+                block_skips = true;
+            }
+            if layers.iter().any(|l| matches!(l, LayerSpec::Pool { .. })) {
+                // Feedback::backward refuses max-pool layers inside a block loudly ("Unsupported layer type.")
+                ev.class("feedback block containing a max-pool (backward unsupported by the library, loud)");
+                block_skips = true;
+            }
         }
         if let LayerSpec::Conv { cfg, .. } | LayerSpec::Deconv { cfg, .. } = req {
             let (_, h, w) = spatial_dims(&cur);
@@ -169,14 +284,25 @@ fn check_requests(case: &Case, ev: &mut CaseEv) -> CheckResult {
     let (pre, act, _, _) = catch(|| net.forward(&xt)).map_err(|p| Fail::new(format!("forward panicked on an accepted layer sequence {:?} (input {:?}): {}", accepted, case.input, p)))?;
     for i in 0..accepted.len() {
         let pd = shape_dims_of(&pre[i]);
-        ensure!(pd == ann[i].1 && tens::consistent(&pre[i]), "layer {} ({:?}) announced {:?} but produced a pre-activation of shape {:?}", i, accepted[i], ann[i].1, pd);
+        // (for a feedback block forward() records the first inner layer's pre-activation in this slot, an
+        // internal placeholder; only the tensor it hands on is the block's output)
+        if !matches!(accepted[i], LayerSpec::Feedback { .. }) {
+            ensure!(pd == ann[i].1 && tens::consistent(&pre[i]), "layer {} ({:?}) announced {:?} but produced a pre-activation of shape {:?}", i, accepted[i], ann[i].1, pd);
+        }
         let next_dense = accepted.get(i + 1).map(|l| !l.is_spatial()).unwrap_or(false);
         let want = if next_dense { vec![count(&ann[i].1)] } else { ann[i].1.clone() };
         let od = shape_dims_of(&act[i + 1]);
         ensure!(od == want && tens::consistent(&act[i + 1]), "layer {} ({:?}) announced {:?}{} but handed on a tensor of shape {:?}", i, accepted[i], ann[i].1, if next_dense { " (flattened for the dense layer that follows)" } else { "" }, od);
         ensure!(tens::flat(&act[i + 1]).len() == count(&ann[i].1), "layer {} handed on {} elements, announced {:?}", i, tens::flat(&act[i + 1]).len(), ann[i].1);
     }
-    // (d) gradient shapes equal parameter shapes
+    // (d) gradient shapes equal parameter shapes (the backward pass of blocks with internal skips aborts on a
+    // shape assertion - DESIGN section 6 - and is outside the listed properties: not exercised here)
+    if block_skips {
+        ev.nontrivial = (accepted.len() >= 2 && transition) || odd;
+        ev.set_sig(&(0u8, &case.input, &accepted));
+        ev.class(format!("accepted{}", accepted.len()));
+        return Ok(());
+    }
     let out_dims = shape_dims_of(act.last().unwrap());
     let target = tens::build(&out_dims, &payload(case.seed ^ 0x77, 1, count(&out_dims), 1.0));
     let objf = objective::Function::create(lib_obj(ObjK::MSE), None);
@@ -315,7 +441,7 @@ impl Prop for C08 {
         t.pick(500_000, 40_000_000)
     }
     fn rule(&self) -> String {
-        "tape-decoded (4/5) input shape (flat 1..30 or c 1-3 x h,w 1-8) + up to 5 (thorough 7) raw layer requests (dense width 1..30; convolution kernel 1-4, stride 1-3, padding 0..kernel+1, dilation 1-3; deconvolution kernel 1-4, stride 1-3, padding 0-3; pool kernel 1-4, stride 1-4), submitted one by one next to an independent shape model (standard formulas): model-valid requests must be accepted and announced (parsed from the Display text) as the model says, a spatial layer after a flat non-perfect-square width must be rejected, requests that do not fit are outside the property and are not submitted; forward on a random input must produce the announced shape for every layer (flattened where a dense layer follows), backward gradient tensors must have the parameters' shapes. (1/250 of the rest) flat widths r*r + {0, +-1, +-2, r} with r in 300..800 in front of a spatial layer: squares accepted and announced as 1 x r x r, all others rejected. (1/5) identity networks (1x1 unit kernels, 1x1 pools, identity dense, identity feedback block) around a flat->spatial or spatial->flat transition must reproduce the input sequence bitwise in row-major order. Non-trivial: depth >= 2 with a flat<->spatial transition, or an odd size / non-dividing stride / padding >= kernel, or an identity network with >= 2 elements. Distinct = (input shape, accepted request sequence).".into()
+        "tape-decoded (4/5) input shape (flat 1..30 or c 1-3 x h,w 1-8) + up to 5 (thorough 7) raw layer requests (dense width 1..30; convolution kernel 1-4, stride 1-3, padding 0..kernel+1, dilation 1-3; deconvolution kernel 1-4, stride 1-3, padding 0-3; pool kernel 1-4, stride 1-4; one request in five is a feedback block built to return to the shape the model is at: flat n -> n / n -> m -> n, or spatial: a same-size convolution (odd kernel <= 5, dilation <= 2) / deconvolution, or a shrinking convolution / max-pool followed by the restoring deconvolution; loops 1-3, skip flags, five accumulations), submitted one by one next to an independent shape model (standard formulas): model-valid requests must be accepted and announced (parsed from the Display text) as the model says, a spatial layer after a flat non-perfect-square width must be rejected, requests that do not fit are outside the property and are not submitted; forward on a random input must produce the announced shape for every layer (flattened where a dense layer follows), backward gradient tensors must have the parameters' shapes (not exercised when a block has internal skips or contains a max-pool: the library's block backward aborts / refuses those loudly). (1/250 of the rest) flat widths r*r + {0, +-1, +-2, r} with r in 300..800 in front of a spatial layer: squares accepted and announced as 1 x r x r, all others rejected. (1/5) identity networks (1x1 unit kernels, 1x1 pools, identity dense, identity feedback block) around a flat->spatial or spatial->flat transition must reproduce the input sequence bitwise in row-major order. Non-trivial: depth >= 2 with a flat<->spatial transition, or an odd size / non-dividing stride / padding >= kernel, or an identity network with >= 2 elements. Distinct = (input shape, accepted request sequence).".into()
     }
     fn run_case(&self, tape: &[u32], ev: &mut CaseEv) -> CheckResult {
         let c = decode(tape, self.0);
